@@ -316,24 +316,41 @@ def main(argv: List[str]) -> int:
     fs = [f['doc'] for _, f in docs.gen_faults(lo, lo + 6, rep)]
     items: List[Dict[str, Any]] = []
 
-    def add(kind, dd, sched=None):
-        items.append({'tid': len(items) + 1, 'kind': kind, 'docs': dd, 'allows': [False] * len(dd), 'sched': sched or []})
+    dsp = [d for _, d in docs.gen_docs(lo + 500, lo + 500 + (20 if quick else 150) - 1, True, rep, with_comments=False)]
+    smallp = [d for d in dsp if len(d) <= 5] or dsp
+
+    def add(kind, dd, sched=None, allow=False):
+        items.append({'tid': len(items) + 1, 'kind': kind, 'docs': dd, 'allows': [allow] * len(dd), 'sched': sched or []})
     use = scheds if not quick else r.sample(scheds, min(len(scheds), 260))
     for k, s in enumerate(use):
         a = small[k % len(small)]
         b = a if k % 3 == 0 else small[(k * 7 + 1) % len(small)]
         if k % 5 == 4:
             b = fs[k % len(fs)]              # one of the two parses fails half-way
+        if k % 4 == 3:                       # both parses with allow_properties=True (another grammar element is used)
+            a, b = smallp[k % len(smallp)], smallp[(k * 7 + 1) % len(smallp)]
+            add('schedule', [a, b], s, allow=True)
+            continue
         add('schedule', [a, b], s)
     for k in range(40 if quick else 600):
         n = 3 + k % 2
         dd = [ds[(k + j * 5) % len(ds)] for j in range(n)]
         if k % 4 == 0:
             dd[1] = dd[0]
+        if k % 3 == 2:
+            add('threads', [dsp[(k + j * 5) % len(dsp)] for j in range(n)], allow=True)
+            continue
         add('threads', dd)
     for k in range(60 if quick else 800):
         d1, d2 = ds[k % len(ds)], ds[(k * 3 + 1) % len(ds)]
-        add('history', [d1, fs[k % len(fs)], d1, d2, d1])
+        if k % 3 == 2:
+            p1, p2 = dsp[k % len(dsp)], dsp[(k * 3 + 1) % len(dsp)]
+            add('history', [p1, p2, p1], allow=True)
+            continue
+        # the second call fails: alternately at build time (rule violation) and at parse time (a declaration the
+        # grammar refuses AFTER complete ones: an unknown top-level element appended to a valid document)
+        bad = fs[k % len(fs)] if k % 2 == 0 else d2 + [{'d': 'raw', 'text': '@ this is not DBML'}]
+        add('history', [d1, bad, d1, d2, d1])
     recs: List[Dict[str, Any]] = []
     for part in core.pmap(_exec_chunk, core.chunked(items, core.NCPU * 2)):
         recs += part
